@@ -271,7 +271,9 @@ func (mc *MemoryChannel) finishRdb(writer *MemoryRdbWriter, err error) {
 	if mc.rdbWriter == writer {
 		mc.rdbWriter = nil
 	}
-	if err != nil && mc.rdb == writer.rdb {
+	// a snapshot is replayable only if every byte of it was ingested: drop it when the writer
+	// failed or was closed before it reached the announced size
+	if (err != nil || !writer.complete.Load()) && mc.rdb == writer.rdb {
 		mc.totalSize -= writer.rdb.bufferedSize()
 		if mc.totalSize < 0 {
 			mc.totalSize = 0
@@ -838,11 +840,12 @@ func (mr *MemoryReader) Close() {
 }
 
 type MemoryRdbWriter struct {
-	ch      *MemoryChannel
-	reader  io.Reader
-	rdb     *memoryRdb
-	current atomic.Pointer[memorySegment]
-	wait    usync.WaitCloser
+	ch       *MemoryChannel
+	reader   io.Reader
+	rdb      *memoryRdb
+	current  atomic.Pointer[memorySegment]
+	complete atomic.Bool // all rdb.size bytes have been appended
+	wait     usync.WaitCloser
 }
 
 func newMemoryRdbWriter(ch *MemoryChannel, reader io.Reader, rdb *memoryRdb) *MemoryRdbWriter {
@@ -912,13 +915,14 @@ func (w *MemoryRdbWriter) ingest() error {
 			return fmt.Errorf("reader error : %w", err)
 		}
 	}
+	if remain == 0 {
+		w.complete.Store(true)
+		return nil
+	}
 	if w.wait.IsClosed() {
 		return nil
 	}
-	if remain != 0 {
-		return fmt.Errorf("imcomplete rdb replay : remains(%d)", remain)
-	}
-	return nil
+	return fmt.Errorf("imcomplete rdb replay : remains(%d)", remain)
 }
 
 type MemoryAofWriter struct {
